@@ -157,6 +157,8 @@ def run_batch(adapter, tier, base, nruns, workers, soft_deadline_s, start=0):
                 raise core.HarnessError('worker batch timed out')
             for f in done:
                 pending.pop(f)
+                if f.cancelled():      # cancelled below once the batch had enough findings; never started
+                    continue
                 r = f.result()   # BrokenProcessPool -> harness error upstream
                 agg['n'] += r['n']
                 agg['digests'].update(r['digests'])
